@@ -140,6 +140,18 @@ def serializeReceiver (fixed : Bool) (lr : Bool) (il : Interlock) : Branch × In
     (.localRemote, if fixed then { il with receiver := .sending } else { il with sender := .sending })
   else (if lr then .refused else .forwarding, il)
 
+/-- The send that serialized a half ends.  `Location::check_local` looks at the confirmation channel
+created by `start_send`: if the connect callback ran (the port requests went out) the half is remote
+from now on; if the channel was dropped without — the send failed after serialization (ports
+exhausted, `max_item_size`, port closed, future dropped) and the value went back to the caller in
+`SendError::item` — the half is local again. -/
+def endSend (confirmed : Bool) : Loc → Loc
+  | .sending => if confirmed then .remote else .localHere
+  | l => l
+
+def Interlock.endSend (confirmed : Bool) (il : Interlock) : Interlock :=
+  { sender := Remoc.Wiring.endSend confirmed il.sender, receiver := Remoc.Wiring.endSend confirmed il.receiver }
+
 /-! ### resolution of one embedded half (unconnectable ⇒ error on both ends) -/
 
 /-- what one end of the channel observes -/
